@@ -7,4 +7,5 @@ example : ser_status_item = some "self.asserted|self.time" := rfl
 example : adm_report_type_code = some 1 ∧ adm_max_status_pos = some 4 := by decide
 example : adm_report_bundle_builder = some ".destination(orig_bundle.primary.report_to.clone()).source(src.clone()).report_to(src).bundle_control_flags(BundleControlFlags::BUNDLE_ADMINISTRATIVE_RECORD_PAYLOAD.bits()).creation_timestamp(CreationTimestamp::now()).lifetime(orig_bundle.primary.lifetime)" := rfl
 example : flag_bundle_request_status_time = some 0x40 ∧ flag_bundle_administrative_record_payload = some 2 := by decide
+example : adm_refbundle_body = some "{ let mut id = format!( \"{}-{}-{}\", self.source_node, self.timestamp.dtntime(), self.timestamp.seqno(), ); if self.frag_len > 0 { id = format!(\"{}-{}\", id, self.frag_offset); } id }" := rfl
 end Bp7.ExtractedOk.C12
